@@ -480,15 +480,6 @@ impl SocketTable {
         self.connections.get(&(local, remote)).copied()
     }
 
-    /// Iterate connections matching `local` — any remote. Used to
-    /// count in-flight children of a listener.
-    pub fn connections_on(&self, local: SocketAddr) -> impl Iterator<Item = (SocketAddr, Fd)> + '_ {
-        self.connections
-            .iter()
-            .filter(move |((l, _), _)| *l == local)
-            .map(|((_, r), fd)| (*r, *fd))
-    }
-
     /// Iterate all bindings on `(domain, ty, port)` regardless of local
     /// address. Used to evaluate wildcard↔specific conflicts at bind
     /// time.
